@@ -180,7 +180,7 @@ def st_stage(draw, op, node, m, ctx, allowed, budget):
     if op == 'items':
         return {'op': 'items', 'in': node}
     if op == 'tile':
-        return {'op': 'tile', 'r': draw(st.integers(1, 3)), 'in': node}
+        return {'op': 'tile', 'r': draw(st.sampled_from([1, 2, 2, 3, 3, 9, 11])), 'in': node}
     if op in ('cache_lazy', 'cache_eager'):
         return {'op': 'cache', 'lazy': op == 'cache_lazy', 'in': node}
     if op == 'catch':
@@ -218,7 +218,13 @@ def st_stage(draw, op, node, m, ctx, allowed, budget):
         ins = [node] + others
         if draw(st.booleans()):
             ins = ins[::-1]
-        return {'op': 'concat', 'how': draw(st.sampled_from(['method', 'method_list', 'function'])), 'ins': ins}
+        out = {'op': 'concat', 'how': draw(st.sampled_from(['method', 'method_list', 'function'])), 'ins': ins}
+        if draw(st.integers(0, 3)) == 0:
+            # the same dataset OBJECT occurs several times among the inputs (a.concatenate(b, a)), possibly often
+            reps = draw(st.sampled_from([1, 1, 2, 4]))
+            out['ins'] = (ins + [ins[0]]) * reps
+            out['share'] = True
+        return out
     if op == 'intersperse':
         o = draw(st_program(ctx, allowed, max_stages=min(2, budget), nested=True, min_n=1))
         mo = ev(o)
